@@ -229,3 +229,97 @@ func runC20Reload(w *core.WorkerCtx, k int) *core.CaseResult {
 	}
 	return res
 }
+
+// A job with a configured param and targets that override it through a relabel rule next to targets that
+// do not: every probe carries ITS target's params, and the estimate is the count of the exposition that
+// probe received - whatever was probed before.
+const c20ParamQuick, c20ParamThorough = 2, 12
+
+func runC20Params(w *core.WorkerCtx, k int) *core.CaseResult {
+	r := core.NewRng(w.Seed, 0xC20C, uint64(k))
+	res := &core.CaseResult{Sig: fmt.Sprintf("param-override-%d", k), Nontrivial: true}
+	var mu sync.Mutex
+	seen := map[string][]string{}
+	sizes := map[string]int{"small": 3, "big": 9, "huge": 17}
+	srv := httptest.NewServer(http.HandlerFunc(func(rw http.ResponseWriter, rq *http.Request) {
+		id, mod := rq.URL.Query().Get("id"), rq.URL.Query().Get("module")
+		mu.Lock()
+		seen[id] = append(seen[id], mod)
+		mu.Unlock()
+		rw.Header().Set("Content-Type", "text/plain; version=0.0.4")
+		for i := 0; i < sizes[mod]; i++ {
+			fmt.Fprintf(rw, "probe_metric{i=\"%d\"} 1\n", i)
+		}
+	}))
+	defer srv.Close()
+	addr := srv.Listener.Addr().(*net.TCPAddr).String()
+	// (a __param_ label that comes straight from discovery is overwritten by the configured value in Prometheus
+	// itself; only relabeling overrides a configured param - blackbox-exporter style)
+	cfg := "global:\n  scrape_interval: 15s\n  scrape_timeout: 10s\nscrape_configs:\n- job_name: jp\n  params:\n    module: [small]\n  relabel_configs:\n  - source_labels: [mod]\n    regex: (.+)\n    target_label: __param_module\n"
+	p := newPipeline(1)
+	defer p.close()
+	if err := p.cm.ReloadFromRaw([]byte(cfg)); err != nil {
+		res.Inconcl = "reload: " + err.Error()
+		return res
+	}
+	n := 3 + r.Intn(4)
+	want := map[string]string{}
+	var ts []map[string]string
+	for i := 0; i < n; i++ {
+		id := fmt.Sprintf("p%d", i)
+		t := map[string]string{"__address__": addr, "__param_id": id}
+		want[id] = "small"
+		if m := r.PickS("", "", "big", "huge"); m != "" {
+			t["mod"] = m
+			want[id] = m
+		}
+		ts = append(ts, t)
+	}
+	// at least one overriding target ahead of a plain one
+	ts[0]["mod"], want["p0"] = "big", "big"
+	delete(ts[n-1], "mod")
+	want[fmt.Sprintf("p%d", n-1)] = "small"
+	if err := p.update(map[string][]*targetgroup.Group{"jp": {group("jp/0", ts)}}); err != nil {
+		res.Inconcl = err.Error()
+		return res
+	}
+	// asked for one after the other, in target order (one worker): the probes are sequential
+	hashOf := map[string]uint64{}
+	for h, t := range p.disc.ActiveTargetsByHash() {
+		hashOf[t.ShardTarget.Labels.Get("__param_id")] = h
+	}
+	for i := 0; i < n; i++ {
+		id := fmt.Sprintf("p%d", i)
+		h := hashOf[id]
+		deadline := time.Now().Add(retryInterval + 10*time.Second)
+		for {
+			st := p.exp.Get(h)
+			if st != nil && string(st.Health) == "up" {
+				res.Execs++
+				res.AddStat("probes_of_targets_with_and_without_param_override", 1)
+				if st.Series != int64(sizes[want[id]]) {
+					res.Violate("C20/estimate-wrong/param-override", "target %s (module %s) got the estimate %d; the exposition for its own params has %d samples", id, want[id], st.Series, sizes[want[id]])
+				}
+				break
+			}
+			if time.Now().After(deadline) {
+				res.Violate("C20/first-probe-missing", "target %s was not probed within interval + 10 s", id)
+				break
+			}
+			time.Sleep(10 * time.Millisecond)
+		}
+	}
+	mu.Lock()
+	defer mu.Unlock()
+	for id, mods := range seen {
+		for _, m := range mods {
+			if m != want[id] {
+				res.Violate("C20/probe-with-foreign-params", "target %s was probed with module=%q; its own labels and the job's configuration say %q", id, m, want[id])
+			}
+		}
+	}
+	if len(res.Viol) > 0 {
+		res.Witness = map[string]interface{}{"targets": ts, "requests_seen": seen}
+	}
+	return res
+}
